@@ -1600,6 +1600,18 @@ _patch_case('M', 'C16', 'heldout-m07', 'G6-m07.diff', 'C16.1')
 _patch_case('M', 'C16', 'heldout-m08', 'G6-m08.diff', 'C16.2')
 _patch_case('M', 'C16', 'heldout-m09', 'G6-m09.diff', 'C16.2')
 _patch_case('M', 'C16', 'heldout-m10', 'G6-m10.diff', 'C16.6')
+_patch_case('T', 'C16', 'heldout-a-t08', 'G6-a-t08.diff')
+# --- C16.6 session-key rules (own, semantic versions of the shared family functions)
+_C16_SEL = "        pkesk = next(pk for pk in message._sessionkeys if isinstance(pk, PKESessionKey)\n                     and pk.pkalg == self.key_algorithm and pk.encrypter == self.fingerprint.keyid)"
+M('C16', 'pkesk-any-of-algorithm-or-id', PGP, _C16_SEL, "        pkesk = next(pk for pk in message._sessionkeys if isinstance(pk, PKESessionKey)\n                     and (pk.pkalg == self.key_algorithm or pk.encrypter == self.fingerprint.keyid))", 'C16.6')
+M('C16', 'pkesk-no-class-filter', PGP, _C16_SEL, "        pkesk = next(pk for pk in message._sessionkeys\n                     if pk.pkalg == self.key_algorithm and pk.encrypter == self.fingerprint.keyid)", 'C16.6')
+M('C16', 'pkesk-other-recipient', PGP, _C16_SEL, "        pkesk = next(pk for pk in message._sessionkeys if isinstance(pk, PKESessionKey)\n                     and pk.pkalg == self.key_algorithm and pk.encrypter != self.fingerprint.keyid)", 'C16.6')
+T('C16', 'twin-pkesk-own-id-local', PGP, _C16_SEL, "        own_id = self.fingerprint.keyid\n        mine = (pk for pk in message._sessionkeys\n                if isinstance(pk, PKESessionKey) and own_id == pk.encrypter and self.key_algorithm == pk.pkalg)\n        pkesk = next(mine)")
+T('C16', 'twin-pkesk-all-filter', PGP, _C16_SEL, "        pkesk = next(pk for pk in message._sessionkeys if isinstance(pk, PKESessionKey)\n                     if all([pk.pkalg == self.key_algorithm, pk.encrypter == self.fingerprint.keyid]))")
+M('C16', 'encrypters-loop-unguarded', PGP, "        return set(m.encrypter for m in self._sessionkeys if isinstance(m, PKESessionKey))", "        keyids = set()\n        for m in self._sessionkeys:\n            keyids.add(m.encrypter)\n        return keyids", 'C16.6')
+T('C16', 'twin-encrypters-loop-guarded', PGP, "        return set(m.encrypter for m in self._sessionkeys if isinstance(m, PKESessionKey))", "        keyids = set()\n        for m in self._sessionkeys:\n            if not isinstance(m, PKESessionKey):\n                continue\n            keyids.add(m.encrypter)\n        return keyids")
+T('C16', 'twin-decrypt-addressed-first', PGP, "        if self.fingerprint.keyid not in message.encrypters:\n            sks = set(self.subkeys)\n            mis = set(message.encrypters)\n            if sks & mis:\n                skid = list(sks & mis)[0]\n                return self.subkeys[skid].decrypt(message)\n\n            raise PGPError(\"Cannot decrypt the provided message with this key\")\n\n" + _C16_SEL + "\n        alg, key = pkesk.decrypt_sk(self._key)\n\n        # now that we have the symmetric cipher used and the key, we can decrypt the actual message\n        decmsg = PGPMessage()\n        decmsg.parse(message.message.decrypt(key, alg))\n\n        return decmsg",
+  "        keyid = self.fingerprint.keyid\n        if keyid in message.encrypters:\n            pkesk = next(pk for pk in message._sessionkeys if isinstance(pk, PKESessionKey)\n                         and pk.pkalg == self.key_algorithm and pk.encrypter == keyid)\n            alg, key = pkesk.decrypt_sk(self._key)\n            decmsg = PGPMessage()\n            decmsg.parse(message.message.decrypt(key, alg))\n            return decmsg\n\n        addressed = set(self.subkeys) & set(message.encrypters)\n        if addressed:\n            return self.subkeys[list(addressed)[0]].decrypt(message)\n\n        raise PGPError(\"Cannot decrypt the provided message with this key\")")
 T('C16', 'twin-delegate-loop-skip', PGP, _C16_DEL, "            for skid in self.subkeys:\n                if skid not in message.encrypters:\n                    continue\n                return self.subkeys[skid].decrypt(message)\n")
 
 # =============================================================================================== C18 (additions)
